@@ -4,6 +4,7 @@ package main
 
 import (
 	"fmt"
+	"go/types"
 	"sort"
 	"strings"
 
@@ -273,7 +274,7 @@ func (w *World) checkCallers(r *Report, rule string, ref fref, allowed map[strin
 }
 
 func checkC04(w *World, r *Report) {
-	r.Explanation = "Structural clause of C04: (N-1) Account.CheckNonce is an equality guard; commonValidation1 applies it to (ctx.Sender, ctx.Tx.Nonce) and its error returns before any controller runs; (N-2) Account.Nonce is written only by AddNonce (+1), SetNonce, Decode and constructors, AddNonce is called only from postRunTrx and SetNonce only from StateDBWrapper.Finish; (N-3) a decision table over (tx type, receiver-has-code, exec) evaluated on the CFGs of runTrx and postRunTrx shows that exactly the transactions routed to a native controller pass exactly one AddNonce on ctx.Sender followed by SetAccountCommittable(ctx.Sender, ctx.Exec) on every success path, and exactly those routed to the EVM pass none; (N-4) on the EVM route the transaction's own nonce reaches the EVM message with nonce checking enabled (isFake=false) and Finish copies the EVM's nonce back for every accessed address before marking the account; (N-5) the set of accessed addresses that Finish writes back is maintained exactly: every address entering the access list is synchronised in and recorded, RevertToSnapshot forgets exactly those recorded after the snapshot (C17 E-1, E-2); (N-6) the nonce the guard compares with is the one the last successful transaction wrote: the account ledger answers every read with the latest pending write of that key, whatever happens to other keys in between (C18 L-1); (N-7) no copy of an account decoded afresh from the committed tree is written into an overlay over the overlay's own object, which may carry a nonce raised earlier in the block (C01 D-6 stale-copy); (N-8) a contract transaction that fails leaves nothing in the wrapper's record of synchronised addresses: revert to the pre-transaction snapshot, then Finish (C05 A-4). N-8 also requires every success exit of an executed EVM-routed transaction to pass Snapshot, Prepare, the message application and Finish: nonce and fee of these transactions are consumed there and nowhere else."
+	r.Explanation = "Structural clause of C04: (N-1) Account.CheckNonce is an equality guard; commonValidation1 applies it to (ctx.Sender, ctx.Tx.Nonce) and its error returns before any controller runs; (N-2) Account.Nonce is written only by AddNonce (+1), SetNonce, Decode and constructors, AddNonce is called only from postRunTrx and SetNonce only from StateDBWrapper.Finish; (N-3) a decision table over (tx type, receiver-has-code, exec) evaluated on the CFGs of runTrx and postRunTrx shows that exactly the transactions routed to a native controller pass exactly one AddNonce on ctx.Sender followed by SetAccountCommittable(ctx.Sender, ctx.Exec) on every success path, and exactly those routed to the EVM pass none; (N-4) on the EVM route the transaction's own nonce reaches the EVM message with nonce checking enabled (isFake=false) and Finish copies the EVM's nonce back for every accessed address before marking the account; (N-5) the set of accessed addresses that Finish writes back is maintained exactly: every address entering the access list is synchronised in and recorded, RevertToSnapshot forgets exactly those recorded after the snapshot (C17 E-1, E-2); (N-6) the nonce the guard compares with is the one the last successful transaction wrote: the account ledger answers every read with the latest pending write of that key, whatever happens to other keys in between (C18 L-1); (N-7) no copy of an account decoded afresh from the committed tree is written into an overlay over the overlay's own object, which may carry a nonce raised earlier in the block (C01 D-6 stale-copy); (N-8) a contract transaction that fails leaves nothing in the wrapper's record of synchronised addresses: revert to the pre-transaction snapshot, then Finish (C05 A-4). N-8 also requires every success exit of an executed EVM-routed transaction to pass Snapshot, Prepare, the message application and Finish: nonce and fee of these transactions are consumed there and nowhere else. (N-10) no operation on a ledger of accounts removes an item (interface invocations, static calls, forwarding selectors, method values): an account, once created, keeps its nonce."
 	r.NotCovered = "the arithmetic consequence 'at most once over a history' (follows from N-1..4, not itself computed); go-ethereum's own nonce check and increment; reverts on failure (C05 A-4)."
 	n1(w, r)
 	n2(w, r)
@@ -290,6 +291,8 @@ func checkC04(w *World, r *Report) {
 	// the routing in runTrx and the decision in postRunTrx
 	codeMarkerStable(w, r, "N-9")
 	r.Floor("N-9", 3, "code marker writers")
+	n10(w, r)
+	r.Floor("N-10", 1, "account ledger call sites")
 	r.Floor("N-1", 4, "equality guard and its placement")
 	r.Floor("N-2", 5, "writers and callers of the nonce primitives")
 	r.Floor("N-3", 18, "decision table rows")
@@ -774,5 +777,71 @@ func n4(w *World, r *Report) {
 		ok, inLoop := okN, true
 		_ = why
 		r.Check(ok && inLoop, "N-4", "Finish:nonce-write-back", "for every accessed address the EVM's nonce is copied to the account, which is then marked in the overlay selected by the wrapper's exec flag", "Finish does not copy the EVM nonce back to every accessed account before marking it", fnSite(w, fin))
+	}
+}
+
+// ledgerItemTypeName: the item type a ledger value is instantiated with ("" when unknown).
+func ledgerItemTypeName(t types.Type) string {
+	t = deref(t)
+	if a, ok := t.(*types.Alias); ok {
+		t = types.Unalias(a)
+	}
+	n, ok := t.(*types.Named)
+	if !ok || n.TypeArgs() == nil || n.TypeArgs().Len() == 0 {
+		return ""
+	}
+	it, ok := deref(n.TypeArgs().At(0)).(*types.Named)
+	if !ok {
+		return ""
+	}
+	return it.Obj().Name()
+}
+
+// n10 — the nonce lives in the account record, so the record outlives every
+// block: nothing in the node removes an item of an account ledger. A removed
+// account is re-created with nonce 0 the next time the address is touched, and
+// every transaction it ever signed can be delivered again.
+func n10(w *World, r *Report) {
+	nSites := 0
+	var bad []string
+	var sites []string
+	for _, fn := range w.nodeFuncs() {
+		for _, b := range fn.Blocks {
+			for _, in := range b.Instrs {
+				if c, ok := in.(ssa.CallInstruction); ok {
+					for _, a := range w.ledgerArms(c) {
+						if ledgerItemTypeName(a.Recv.Type()) != "Account" {
+							continue
+						}
+						nSites++
+						if a.Method == "Del" || a.Method == "DelFinality" {
+							bad = append(bad, w.FName(fn)+": "+w.canonCall(c.Common(), 0))
+							sites = append(sites, site(w, c))
+						}
+					}
+					continue
+				}
+				// a removal picked as a method value (fn := ledger.Del)
+				if mc, ok := in.(*ssa.MakeClosure); ok && len(mc.Bindings) == 1 && isLedgerType(mc.Bindings[0].Type()) && ledgerItemTypeName(mc.Bindings[0].Type()) == "Account" {
+					if f, ok := mc.Fn.(*ssa.Function); ok && strings.HasSuffix(f.Name(), "$bound") {
+						nSites++
+						if nm := strings.TrimSuffix(f.Name(), "$bound"); nm == "Del" || nm == "DelFinality" {
+							bad = append(bad, w.FName(fn)+": method value "+nm)
+							sites = append(sites, site(w, in))
+						}
+					}
+				}
+			}
+		}
+	}
+	r.Extra["n10_account_ledger_sites"] = nSites
+	if nSites < 4 {
+		r.Undecided("N-10", "account-records-never-removed", fmt.Sprintf("only %d operations on an account ledger were found (floor 4)", nSites))
+		return
+	}
+	if len(bad) == 0 {
+		r.OK("N-10", "account-records-never-removed", fmt.Sprintf("none of the %d operations on a ledger of accounts removes an item: an account, once created, keeps its nonce for ever", nSites), "ctrlers/account/ctrler.go")
+	} else {
+		r.Violate("N-10", "account-records-never-removed", "an account record can be removed from the ledger: the address is re-created with nonce 0 when it is next touched and every transaction it signed before can take effect again: "+strings.Join(bad, "; "), nil, sites...)
 	}
 }
